@@ -1,5 +1,5 @@
 #!/usr/bin/env python3
-"""asan_engine.py <PROP> <inner-engine> <inner-tier> <seed> <out>
+"""asan_engine.py <PROP> <inner-engine> <inner-tier> <seed> <out> [<package> <binary>]
 
 E6: repeat a vmon workload under an AddressSanitizer build (nightly,
 -Zsanitizer=address) of the harness + dropshot + all dependencies.  Any ASan
@@ -20,16 +20,18 @@ TRIPLE = "x86_64-unknown-linux-gnu"
 
 def main():
     prop, inner, tier, seed, out = sys.argv[1:6]
+    package = sys.argv[6] if len(sys.argv) > 6 else "vmon"
+    binary = sys.argv[7] if len(sys.argv) > 7 else "vmon"
     t0 = time.time()
     env = dict(os.environ, CARGO_NET_OFFLINE="true", CARGO_TARGET_DIR=TARGET,
                RUSTFLAGS="-Zsanitizer=address -Cforce-frame-pointers=yes --cfg dropshot_verif")
-    b = subprocess.run(["cargo", "+nightly", "build", "--release", "--offline", "-q", "--target", TRIPLE, "-p", "vmon"],
+    b = subprocess.run(["cargo", "+nightly", "build", "--release", "--offline", "-q", "--target", TRIPLE, "-p", package],
                        cwd=HARNESS, env=env, stdout=subprocess.PIPE, stderr=subprocess.STDOUT, text=True)
     if b.returncode != 0:
         sys.stderr.write("ASan build failed:\n" + b.stdout[-3000:])
         return 3
     build_s = time.time() - t0
-    exe = os.path.join(TARGET, TRIPLE, "release", "vmon")
+    exe = os.path.join(TARGET, TRIPLE, "release", binary)
     inner_out = out + ".inner"
     renv = dict(os.environ, ASAN_OPTIONS="halt_on_error=1:abort_on_error=1:detect_leaks=0:symbolize=1:allocator_may_return_null=1",
                 ASAN_SYMBOLIZER_PATH="/usr/bin/llvm-symbolizer-14")
